@@ -37,7 +37,7 @@ def model_strategy(draw, quick):
   integ = draw(st.sampled_from(INTEGRATORS))
   fl = {}
   for f in ('eulerdamp', 'damper', 'actuation', 'spring'):
-    if draw(st.integers(0, 7)) == 0:
+    if draw(st.integers(0, 4 if f == 'damper' else 7)) == 0:
       fl[f] = 'disable'
   fl['contact'] = 'disable'
   h = draw(mg.num(0.0005, 0.02, 4))
@@ -132,8 +132,8 @@ def main(ck):
         continue
       adr = int(m.actuator_actadr[a]) + n - 1
       u = float(dd.ctrl[int(m.actuator_ctrladr[a])])
-      if bool(m.actuator_ctrllimited[a]):
-        lo, hi = m.actuator_ctrlrange[a]
+      if bool(m.actuator_ctrllimited[int(m.actuator_ctrladr[a])]):
+        lo, hi = m.actuator_ctrlrange[int(m.actuator_ctrladr[a])]
         u = min(max(u, lo), hi)
       dt_ = int(m.actuator_dyntype[a])
       if dt_ == E.mjDYN_INTEGRATOR:
@@ -171,6 +171,24 @@ def main(ck):
       labels.append('engine-warning')
       ck.case(nontrivial=False, key=(gm.xml, seed), labels=labels)
       return
+    # ---- documented flag semantics (metamorphic): with the damper flag disabled (springs still on) damping must not enter
+    # the update in any form -> the step equals the step of the same model with every damping coefficient set to zero
+    if 'damper' in fl and 'spring' not in fl:
+      mz = lib.copy_model(m)
+      for name in ('dof_damping', 'dof_dampingpoly', 'tendon_damping', 'tendon_dampingpoly', 'actuator_damping', 'actuator_dampingpoly'):
+        arr = getattr(mz, name)
+        if arr.size:
+          arr[...] = 0
+      dz = lib.copy_data(mz, d0)
+      lib.mj_step(mz, dz)
+      had = any(np.any(np.array(getattr(m, name)) != 0) for name in ('dof_damping', 'dof_dampingpoly', 'tendon_damping', 'tendon_dampingpoly',
+                                                                       'actuator_damping', 'actuator_dampingpoly'))
+      if had:
+        labels.append('damper-off-vs-zero-damping')
+      for fld in ('qvel', 'qpos', 'act'):
+        a_, b_ = np.array(getattr(d1, fld)), np.array(getattr(dz, fld))
+        close('damper-flag-' + fld, a_, b_, 1 + np.abs(b_).max() if b_.size else 1.0, 64 * EPS,
+              'damper flag disabled: %s after mj_step vs the same model with all damping coefficients zero (%s)' % (fld, integ), 'damper-flag-' + integ)
     # ---- reference: forward on another twin, then the documented update
     dr = lib.copy_data(m, d0)
     lib.mj_forward(m, dr)
